@@ -28,6 +28,10 @@ namespace b64 = tbox::util::base64;
 
 static bool g_guard = false;                 // buffer mode
 static std::string g_current;                // descriptor of the call in progress (for Fault reports)
+// placement of the buffers of the current call: every input copy starts `g_ioff` bytes, every output area `g_ooff` bytes after a
+// malloc()ed (16-byte aligned) address and still ends exactly at the end of its block - so the code sees every misalignment of
+// its pointers, and a read or write beyond the end lands in ASan's redzone whatever the alignment
+static size_t g_ioff = 0, g_ooff = 0;
 
 // ---------------------------------------------------------------------------------------------- buffers
 static const size_t G = 64;
@@ -36,34 +40,36 @@ struct OutBuf {                              // an output area of exactly `cap` 
     explicit OutBuf(size_t c) { reset(c); }
     OutBuf() {}
     OutBuf(const OutBuf &) = delete;
+    uint8_t *gb = nullptr;                     // guard mode: start of the front guard
     void reset(size_t c) {
         free(base); cap = c;
         if (g_guard) {
-            base = (uint8_t *)malloc(c + 2 * G);
-            for (size_t i = 0; i < G; ++i) { base[i] = (uint8_t)(0xD0 + (i & 15)); base[G + c + i] = (uint8_t)(0xB0 + (i & 15)); }
-            p = base + G;
+            base = (uint8_t *)malloc(g_ooff + c + 2 * G); gb = base + g_ooff;
+            for (size_t i = 0; i < G; ++i) { gb[i] = (uint8_t)(0xD0 + (i & 15)); gb[G + c + i] = (uint8_t)(0xB0 + (i & 15)); }
+            p = gb + G;
         } else {
-            base = p = (uint8_t *)malloc(c);            // malloc(0): a valid pointer to zero usable bytes
+            base = (uint8_t *)malloc(g_ooff + c);          // malloc(0): a valid pointer to zero usable bytes
+            p = base + g_ooff;
         }
         for (size_t i = 0; i < c; ++i) p[i] = fill(i);
     }
     static uint8_t fill(size_t i) { return (uint8_t)(0xA5 + 3 * i); }
     bool intact() const {
         if (!g_guard) return true;
-        for (size_t i = 0; i < G; ++i) if (base[i] != (uint8_t)(0xD0 + (i & 15)) || base[G + cap + i] != (uint8_t)(0xB0 + (i & 15))) return false;
+        for (size_t i = 0; i < G; ++i) if (gb[i] != (uint8_t)(0xD0 + (i & 15)) || gb[G + cap + i] != (uint8_t)(0xB0 + (i & 15))) return false;
         return true;
     }
     ~OutBuf() { free(base); }
 };
-struct InBuf {                               // exactly sized heap copy of an input
-    uint8_t *p; size_t n;
+struct InBuf {                               // exactly sized heap copy of an input, g_ioff bytes into its block
+    uint8_t *base, *p; size_t n;
     explicit InBuf(const Bytes &b, bool nul = false) : n(b.size()) {
-        p = (uint8_t *)malloc(n + (nul ? 1 : 0));
+        base = (uint8_t *)malloc(g_ioff + n + (nul ? 1 : 0)); p = base + g_ioff;
         if (n) memcpy(p, b.data(), n);
         if (nul) p[n] = 0;
     }
     InBuf(const InBuf &) = delete;
-    ~InBuf() { free(p); }
+    ~InBuf() { free(base); }
 };
 
 static Bytes bytes_of(const json &j) { Bytes b; for (auto &x : j) b.push_back((uint8_t)x.get<int>()); return b; }
@@ -108,6 +114,7 @@ static void exec(json d) {
     if (e == "Reset") { ser_reset(); emit(r); return; }
     if (e == "Fault") return;
     announce(g_current);                       // (the orchestrator drops the Call lines of calls that returned)
+    g_ioff = d.value("ioff", 0); g_ooff = d.value("ooff", 0);
     if (e == "B64Enc") {
         Bytes in = bytes_of(d["in"]); std::string v = d["v"]; size_t cap = d.value("cap", 0);
         InBuf ib(in);
@@ -235,9 +242,12 @@ static void exec(json d) {
         r["lg"] = lg; r["delta"] = delta; r["pat"] = pat; r["ways"] = ways; r["one"] = jbytes(one); r["splits"] = ds; r["n"] = n; r["g"] = intact;
     } else if (e == "Aes") {
         Bytes key = bytes_of(d["key"]), in = bytes_of(d["in"]);
+        bool alias = d.value("alias", false);               // in-place: the input block is also the output block
         InBuf kb(key), ib(in); OutBuf o1(16), o2(16);
         tbox::crypto::AES aes(kb.p);
-        aes.cipher(ib.p, o1.p); aes.invcipher(ib.p, o2.p);
+        if (alias) { memcpy(o1.p, in.data(), 16); memcpy(o2.p, in.data(), 16); aes.cipher(o1.p, o1.p); aes.invcipher(o2.p, o2.p); }
+        else { aes.cipher(ib.p, o1.p); aes.invcipher(ib.p, o2.p); }
+        if (alias) r["alias"] = true;
         r["key"] = d["key"]; r["in"] = d["in"]; r["enc"] = jbytes(o1.p, 16); r["dec"] = jbytes(o2.p, 16); r["g"] = o1.intact() && o2.intact();
     } else if (e == "SerNew") {
         std::string kind = d["kind"]; size_t size = d.value("size", 0); bool big = d["big"];
@@ -299,6 +309,9 @@ static void exec(json d) {
         size_t p = d.value("p", 0); bool ret = des->set_pos(p);
         r["p"] = p; r["ret"] = ret; r["pos"] = des->pos();
     } else { fprintf(stderr, "unknown call %s\n", g_current.c_str()); _exit(3); }
+    if (g_ioff) r["ioff"] = g_ioff;
+    if (g_ooff) r["ooff"] = g_ooff;
+    g_ioff = g_ooff = 0;
     emit(r);
     g_current.clear();
 }
@@ -392,12 +405,12 @@ struct Gen {
             for (uint32_t x : u) { if (m == 65536) in.push_back((int)(x >> 8)); in.push_back((int)(x & 0xff)); }
             if (m == 65536 && rng.chance(25)) in.push_back(rng.chance(50) ? 0 : byte());          // odd trailing byte
             c["in"] = in;
-        } else if (k == "Sum8" || k == "Sum16" || k == "Crc16" || k == "Crc32") { c["in"] = rng.chance(10) ? bytes(rng.below(120)) : bytes(); }
+        } else if (k == "Sum8" || k == "Sum16" || k == "Crc16" || k == "Crc32") { c["in"] = rng.chance(10) ? bytes(rng.below(120)) : rng.chance(30) ? bytes(rng.below(4)) : bytes(); }
         else if (k == "Md5") {
             static const int lens[] = {0, 1, 2, 3, 7, 8, 55, 56, 57, 63, 64, 65, 119, 120, 121, 127, 128, 129};
             size_t n = rng.chance(70) ? (size_t)lens[rng.below(18)] : (size_t)rng.below(150);
             c["msg"] = bytes(n); c["mode"] = n <= 70 ? (rng.chance(50) ? "all3" : "all2") : (rng.chance(50) ? "all2" : "rand"); c["seed"] = rng.below(1000000);
-        } else if (k == "Aes") { c["key"] = rng.chance(20) ? json(std::vector<int>(16, rng.chance(50) ? 0 : 255)) : bytes(16); c["in"] = rng.chance(20) ? json(std::vector<int>(16, rng.chance(50) ? 0 : 255)) : bytes(16); }
+        } else if (k == "Aes") { if (rng.chance(50)) c["alias"] = true; c["key"] = rng.chance(20) ? json(std::vector<int>(16, rng.chance(50) ? 0 : 255)) : bytes(16); c["in"] = rng.chance(20) ? json(std::vector<int>(16, rng.chance(50) ? 0 : 255)) : bytes(16); }
         return c;
     }
     // one serializer / deserializer episode
@@ -459,8 +472,8 @@ int main(int argc, char **argv) {
             for (auto &k : kinds) {
                 int reps = (k == "Md5" || k == "Aes") ? 1 : 3;
                 for (int i = 0; i < reps; ++i) {
-                    if (k == "Serial") { std::vector<json> ops; g.serial(ops); for (auto &o : ops) exec(o); }
-                    else exec(g.call(k));
+                    if (k == "Serial") { std::vector<json> ops; g.serial(ops); for (auto &o : ops) { if (g.rng.chance(50)) o["ioff"] = g.rng.below(8); if (g.rng.chance(50)) o["ooff"] = g.rng.below(8); exec(o); } }
+                    else { json c = g.call(k); if (g.rng.chance(60)) c["ioff"] = g.rng.below(8); if (g.rng.chance(40)) c["ooff"] = g.rng.below(8); exec(c); }
                 }
             }
             exec({{"e", "Reset"}});
